@@ -10,7 +10,7 @@ import time
 import z3
 
 from pv import classes, smt, source
-from pv.contract import REG, FIELDS, THEORIES, SPECFNS, CLASS_INV, load_all
+from pv.contract import REG, FIELDS, THEORIES, SPECFNS, CLASS_INV, FIELD_VIEWS, load_all
 from pv.core import Ob, DISCHARGED, REFUTED, UNDECIDED
 from pv.evalx import Evaluator, from_py, lit_of, EMPTY_DICT
 from pv.source import BindingError
@@ -44,6 +44,13 @@ class Engine:
                 self.loop_ids[id(n)] = k
                 k += 1
         self.nloops = k
+        self.join_ids = {}
+        j = 0
+        for n in self._preorder(self.fn):
+            if isinstance(n, ast.Call) and isinstance(n.func, ast.Attribute) and n.func.attr == 'join' and n.args \
+                    and isinstance(n.args[0], ast.GeneratorExp):
+                self.join_ids[id(n.args[0])] = j
+                j += 1
         self.closure_env = {}
         self.paths = 0
         self.t_solver = 0.0
@@ -311,6 +318,12 @@ class Engine:
             if fk is None:
                 raise OutOfSubset('attribute %s of %s has no declared kind' % (attr, cls))
             st.may_raise(recv.t == 0, 'AttributeError', 'None.%s' % attr)
+            for th in self.ctr.theories:
+                view = FIELD_VIEWS.get(th, {}).get(attr)
+                if view is not None:
+                    v = view(self, st, recv)
+                    if v is not None:
+                        return v
             if attr == 'children':
                 hc = classes.has_children(cls) if cls else 'maybe'
                 if hc == 'no':
@@ -374,7 +387,10 @@ class Engine:
             return VStr(z3.SubString(recv.t, i, 1))
         if isinstance(recv, VList):
             n = st.llen(recv.t)
-            i = self.norm_index(st, idx, n, 'list index')
+            if st.spec and getattr(st, 'raw_index', False):
+                i = self.as_int(idx)          # quantifier bodies / triggers: the index is used as written (it is in range there)
+            else:
+                i = self.norm_index(st, idx, n, 'list index')
             return self.elem_value(st.lget(recv.t, i, recv.ek), recv.ek)
         if isinstance(recv, VPy) and isinstance(recv.obj, dict):
             items = list(recv.obj.items())
@@ -437,7 +453,7 @@ class Engine:
             src = st.larr(recv.t, recv.ek)
             k = z3.Int(fresh_name('k'))
             dst = z3.Const(fresh_name('sl'), ARR_IS if recv.ek == 'str' else ARR_II)
-            st.pc.append(z3.ForAll([k], z3.Select(dst, k) == z3.Select(src, k + a)))
+            st.pc.append(z3.ForAll([k], z3.Select(dst, k) == z3.Select(src, k + a), patterns=[z3.Select(dst, k)]))
             st.lset_all(l, dst, recv.ek)
             return VList(l, recv.ek)
         if isinstance(recv, VTuple):
@@ -543,8 +559,97 @@ class Engine:
             return VBool(z3.Function('$isidentifier', S, B)(s))
         raise OutOfSubset('str.%s' % name)
 
+    # ---- slice normal form (DESIGN 2.4): G[a:a+n] + G[a+n:a+n+m] is G[a:a+n+m]
+    @staticmethod
+    def _as_slice(t):
+        if z3.is_app(t) and t.decl().kind() == z3.Z3_OP_SEQ_EXTRACT:
+            b, o, n = t.children()
+            return b, o, n
+        return None
+
+    def concat(self, st, a, b):
+        if z3.is_string_value(a) and a.as_string() == '':
+            return b
+        if z3.is_string_value(b) and b.as_string() == '':
+            return a
+        sa, sb = self._as_slice(a), self._as_slice(b)
+        if sa is not None and sb is not None and sa[0].eq(sb[0]):
+            base, o1, n1 = sa
+            _, o2, n2 = sb
+            ok = z3.And(o2 == o1 + n1, o1 >= 0, n1 >= 0, n2 >= 0, o1 + n1 + n2 <= z3.Length(base))
+            v, _, _, _ = smt.check_sat(list(st.pc) + ([z3.And(st.guards)] if st.guards else []) + [z3.Not(ok)],
+                                       timeout_ms=3000, use_cvc5=False)
+            if v == 'unsat':
+                return z3.SubString(base, o1, n1 + n2)
+        return z3.Concat(a, b)
+
     def str_join(self, st, sep, it):
-        raise OutOfSubset('str.join')
+        """''.join(f(c) for c in <list>): an accumulator fold, cut at the invariant the contract gives for it."""
+        if sep.lit() != '' or not isinstance(it, VFn) or it.kind != 'genexp':
+            raise OutOfSubset('str.join of this shape')
+        g = it.node
+        if len(g.generators) != 1 or g.generators[0].ifs or not isinstance(g.generators[0].target, ast.Name):
+            raise OutOfSubset('generator expression shape')
+        k = self.join_ids.get(id(g))
+        sp = self.ctr.joins.get(k)
+        if sp is None:
+            raise BindingError('join %r of %s has no invariant in the contract' % (k, self.qual))
+        seq = self.ev.ev(st, g.generators[0].iter)
+        if not isinstance(seq, VList):
+            raise OutOfSubset('join over %s' % kind_of(seq))
+        n = st.llen(seq.t)
+        tgt = g.generators[0].target.id
+
+        def acc_at(s, i):
+            """the accumulated text after i >= 1 elements, as the contract states it (a slice of G in normal form)"""
+            v, new = self.spec_value(s, sp['acc'], extra_env={'_i': VInt(i), '_n': VInt(n), '_seq': seq})
+            return v, new
+        # first element: '' + f(seq[0]) must be acc(1)
+        for case in ('first', 'step'):
+            s1 = st.fork()
+            s1.pend = []
+            i = z3.Int(fresh_name('ji'))
+            s1.pc += [i >= 0, i < n, (i == 0) if case == 'first' else (i > 0)]
+            if not smt.feasible(s1.pc):
+                continue
+            if case == 'first':
+                acc = VStr('')
+            else:
+                acc, new = acc_at(s1, i)
+                s1.pc += new
+                for txt in sp.get('inv', []):          # induction hypothesis at _i
+                    t, new = self.spec_eval(s1, txt, extra_env={'_i': VInt(i), '_n': VInt(n), '_seq': seq})
+                    s1.pc += new
+                    s1.pc.append(t)
+            s1.env = dict(s1.env)
+            s1.env[tgt] = self.elem_value(s1.lget(seq.t, i, seq.ek), seq.ek)
+            val = self.ev.ev(s1, g.elt)
+            for cond, exc, site in s1.pend:
+                self.oblige('join%d:safe:%s' % (k, exc), s1, z3.Not(cond))
+                s1.pc.append(z3.Not(cond))
+            s1.pend = []
+            if not isinstance(val, VStr):
+                raise OutOfSubset('join of non-strings')
+            acc2 = self.concat(s1, acc.t, val.t)
+            want, new = acc_at(s1, i + 1)
+            g1 = s1.fork()
+            g1.pc += new
+            self.oblige('join%d:%s' % (k, case), g1, acc2 == want.t)
+            for j, txt in enumerate(sp.get('inv', [])):
+                t, new = self.spec_eval(s1, txt, extra_env={'_i': VInt(i + 1), '_n': VInt(n), '_seq': seq})
+                g2 = s1.fork()
+                g2.pc += new
+                self.oblige('join%d.inv%d:%s' % (k, j, case), g2, t)
+        # result: '' for an empty sequence, acc(n) otherwise
+        res_n, new = acc_at(st, n)
+        for f in new:
+            st.assume(f)
+        for txt in sp.get('inv', []):
+            t, new = self.spec_eval(st, txt, extra_env={'_i': VInt(n), '_n': VInt(n), '_seq': seq})
+            for f in new:
+                st.assume(f)
+            st.assume(z3.Implies(n > 0, t))
+        return VStr(z3.If(n == 0, z3.StringVal(''), res_n.t))
 
     def list_comp(self, st, e):
         raise OutOfSubset('list comprehension')
